@@ -62,18 +62,27 @@ class CubicSplineSQuad(BaseSQuad):
     def cumsum(self, y):
         # y: (*, nx)
         # return: (*, nx)
+        y, spline_mat, wk, wy = self._to_common_dtype(y)
         y1 = y.unsqueeze(-1)  # (*, nx, 1)
-        ks = torch.matmul(self.spline_mat, y1)  # (*, nx, 1)
-        kfactor = torch.matmul(self.wk, ks)  # (*, nx, 1)
-        yfactor = torch.matmul(self.wy, y1)  # (*, nx, 1)
+        ks = torch.matmul(spline_mat, y1)  # (*, nx, 1)
+        kfactor = torch.matmul(wk, ks)  # (*, nx, 1)
+        yfactor = torch.matmul(wy, y1)  # (*, nx, 1)
         res = kfactor + yfactor  # (*, nx)
         return res.squeeze(-1)
 
     def integrate(self, y):
-        ks = torch.matmul(self.spline_mat, y.unsqueeze(-1)).squeeze(-1)  # (*, nx)
-        kfactor = torch.einsum("c,...c->...", self.wk[-1], ks)
-        yfactor = torch.einsum("c,...c->...", self.wy[-1], y)
+        y, spline_mat, wk, wy = self._to_common_dtype(y)
+        ks = torch.matmul(spline_mat, y.unsqueeze(-1)).squeeze(-1)  # (*, nx)
+        kfactor = torch.einsum("c,...c->...", wk[-1], ks)
+        yfactor = torch.einsum("c,...c->...", wy[-1], y)
         return kfactor + yfactor
+
+    def _to_common_dtype(self, y):
+        # the samples may have another dtype than the sample positions (float32 or
+        # integer samples on a float64 grid): work in the promoted dtype, like the
+        # weight-based rules do (matmul and einsum do not promote by themselves)
+        dtype = torch.promote_types(self.spline_mat.dtype, y.dtype)
+        return y.to(dtype), self.spline_mat.to(dtype), self.wk.to(dtype), self.wy.to(dtype)
 
     def getparamnames(self, methodname, prefix=""):
         if methodname == "cumsum" or methodname == "integrate":
